@@ -92,18 +92,6 @@ theorem rotPlanar_op_vertex (a b c : Int) (pc : c % 2 = 1) (h4 : (a + b) % 4 = 2
     or_false] at hd
   rcases hd with rfl | rfl | rfl | rfl | rfl | rfl <;> rfl
 
-theorem rotIsFace_vertex (a b c : Int) (pc : c % 2 = 1) (h4 : (a + b) % 4 = 2) :
-    rotIsFace (a, b, c) = false := by
-  simp only [rotIsFace, xyMod4, h4, pc, beq_self_eq_true, Bool.and_self, Bool.not_true]
-
-theorem rotIsFace_hface (a b c : Int) (h4 : (a + b) % 4 = 0) : rotIsFace (a, b, c) = true := by
-  have e02 : ((0 : Int) == 2) = false := by decide
-  simp only [rotIsFace, xyMod4, h4, e02, Bool.false_and, Bool.not_false]
-
-theorem rotIsFace_vface (a b c : Int) (pc : c % 2 = 0) : rotIsFace (a, b, c) = true := by
-  have e01 : ((0 : Int) == 1) = false := by decide
-  simp only [rotIsFace, pc, e01, Bool.and_false, Bool.not_false]
-
 /-! ### one edge of each kind -/
 
 /-- flipping a horizontal edge with `(x + y) % 4 = 2` (axis 'x') toggles exactly the faces
